@@ -99,7 +99,7 @@ impl UpdateTrailingTrivia for full_moon::ast::luau::TypeAssertion {
 
 // proxy for full_moon::node::Node (sealed by a private supertrait, cannot be specified): same role,
 // same method names the in-repo code calls (start_position / end_position / surrounding_trivia().0)
-pub enum NodeKey { Stmt(Stmt), Last(LastStmt), Field(int), Other(int) }
+pub enum NodeKey { Stmt(Stmt), Last(LastStmt), Pair(Stmt, Option<TokenReference>), Field(int), Other(int) }
 pub uninterp spec fn pos_bytes(p: Position) -> usize;
 pub uninterp spec fn node_start(k: NodeKey) -> Option<Position>;
 pub uninterp spec fn node_end(k: NodeKey) -> Option<Position>;
